@@ -163,6 +163,11 @@ def triage_failure(pid, h, r, scratch, known):
     with open(pb["log"], errors="replace") as f:
         pbout = f.read()
     tests = [t for t in kani_run.parse_playback(pbout) if t["kind"] != "cover"]
+    if not tests and any(classify_failed(c) == "unwinding" for c in fails):
+        # Kani prints no playback for a failed unwinding assertion. Fall back to the witness bank:
+        # concrete inputs of every vacuity cover of this harness, harvested on a tree where the covers
+        # were satisfied (./check witnesses). A witness that hangs or panics natively is a real failure.
+        tests = load_witnesses(h["name"])
     if not tests:
         inconclusive.append("%s: failed checks [%s] but no counterexample could be extracted"
                             % (h["name"], "; ".join(c["description"] for c in fails)))
@@ -212,6 +217,48 @@ def triage_failure(pid, h, r, scratch, known):
     # de-duplicate known hits
     known_hits = sorted(set(known_hits))
     return violations, known_hits, inconclusive
+
+
+def witness_path(name):
+    return os.path.join(VERIF, "witnesses", name + ".json")
+
+
+def load_witnesses(name):
+    p = witness_path(name)
+    if not os.path.exists(p):
+        return []
+    return [{"kind": "witness", "description": w["cover"], "vals": w["vals"]} for w in json.load(open(p))]
+
+
+def harvest_witnesses(pid):
+    """./check witnesses <PROP>: run every harness of the property with concrete playback and store the
+    inputs Kani prints for each satisfied cover. Maintenance command; the files are committed."""
+    spec = registry.PROPERTIES[pid]
+    crates = {h["file"].split("/")[0] for h in spec["harnesses"]}
+    if "cli" in crates:
+        crates.add("core")
+    scratch = overlay.make_overlay("kani", crates=tuple(sorted(crates)))
+    logd = os.path.join(VERIF, "logs", "witness")
+    os.makedirs(logd, exist_ok=True)
+    os.makedirs(os.path.join(VERIF, "witnesses"), exist_ok=True)
+    try:
+        with cf.ThreadPoolExecutor(max_workers=5) as ex:
+            futs = {ex.submit(kani_run.run_harness, scratch, h, logd, h["timeout"] * 3,
+                              ["-Z", "concrete-playback", "--concrete-playback=print"], "-w"): h
+                    for h in spec["harnesses"] if not os.path.exists(witness_path(h["name"])) or os.environ.get("FORCE")}
+            for fut in cf.as_completed(futs):
+                h = futs[fut]
+                r = fut.result()
+                with open(r["log"], errors="replace") as f:
+                    tests = kani_run.parse_playback(f.read())
+                ws = [{"cover": t["description"], "vals": t["vals"]} for t in tests if t["kind"] == "cover"]
+                if ws:
+                    with open(witness_path(h["name"]), "w") as f:
+                        json.dump(ws, f, indent=1)
+                print("witnesses %s: %d (%s)" % (h["name"], len(ws), r.get("verdict")))
+    finally:
+        overlay.remove_overlay(scratch)
+    return 0
 
 
 def write_evidence(pid, tier, seed, spec, results, violations, known_hits, inconclusive, wall):
@@ -292,6 +339,8 @@ def cmd_replay(path):
 def main(argv):
     if len(argv) >= 2 and argv[1] == "replay":
         return cmd_replay(argv[2])
+    if len(argv) >= 3 and argv[1] == "witnesses":
+        return harvest_witnesses(argv[2])
     if len(argv) >= 2 and argv[1] == "setup":
         from . import setup
         return setup.main()
